@@ -55,7 +55,7 @@ func parseUnits(s, sep string) ([]int, int) {
 }
 
 func init() {
-	// filet <forced|free> #senders #perSender #rotations =sep #seed
+	// filet <forced|forced2|free> #senders #perSender #rotations =sep #seed
 	handlers["filet"] = func(a []string) string {
 		mode := a[0]
 		ns, per, rot := int(unnum(a[1])), int(unnum(a[2])), int(unnum(a[3]))
@@ -79,7 +79,7 @@ func init() {
 				atomic.AddInt64(&rotatedN, 1)
 			}
 		}
-		forced := mode == "forced"
+		forced := mode == "forced" || mode == "forced2"
 		var forcedG int64 = -1
 		_ = forcedG
 		parkArmed := make(chan struct{})
@@ -144,6 +144,10 @@ func init() {
 				return "nopark"
 			}
 			rotate(true)
+			if mode == "forced2" {
+				// a second rotation while the same sender still stands between picking the writer and writing
+				rotate(true)
+			}
 			close(rel)
 			wg.Wait()
 		}
